@@ -7,7 +7,8 @@ Record c20case := {
   c20_in : mecab_in;
   c20_outcome : N;                            (* generate_bigram_info: 0 ok, 1 err, 2 panic *)
   c20_conn : result (list (list Z));          (* costs of the dictionary compiled from the files, [right id][left id] *)
-  c20_dims : N * N                            (* number of rows of bigram.right / bigram.left *)
+  c20_dims : N * N;                           (* number of rows of bigram.right / bigram.left *)
+  c20_files : option (list (list str) * list (list str) * list (str * str * Z))   (* the generated files: rows of bigram.right (ids 1..), of bigram.left, lines of bigram.cost *)
 }.
 
 Definition zrow_eqb := list_eqb Z.eqb.
@@ -31,7 +32,19 @@ Definition c20_oracle (c : c20case) : bool :=
        | _ => false
        end.
 
-Definition c20_corr (c : c20case) : bool := true.     (* the generated files are judged through the compiled connector *)
+(** correspondence: the model of generate_bigram_info produces the implementation's files, cell by
+    cell and line by line, and fails exactly when the implementation reports an error *)
+Definition rows_eqb := list_eqb (list_eqb str_eqb).
+Definition c20_corr (c : c20case) : bool :=
+  match gen (c20_in c), c20_files c with
+  | Ok (r, l, cs), Some (r', l', cs') =>
+      (c20_outcome c =? 0) && rows_eqb r r' && rows_eqb l l'
+      && list_eqb (fun x y => str_eqb (fst (fst x)) (fst (fst y)) && str_eqb (snd (fst x)) (snd (fst y)) && (snd x =? snd y)%Z) cs cs'
+  | Err, None => (c20_outcome c =? 1)
+  | _, _ => false
+  end.
+(** the hypotheses of the end-to-end theorem hold for the case (judged cases only) *)
+Definition c20_wf (c : c20case) : bool := wf_model (c20_in c).
 
 Definition c20_nontrivial (c : c20case) : bool :=
   match c20_conn c with
@@ -39,4 +52,4 @@ Definition c20_nontrivial (c : c20case) : bool :=
   | _ => false
   end.
 
-Definition c20_report := report c20_corr c20_oracle (fun _ => false) c20_nontrivial.
+Definition c20_report := report c20_corr c20_oracle (fun _ => false) (fun c => c20_nontrivial c && c20_wf c).
